@@ -10,6 +10,7 @@ from fv import pyimpl, space
 from fv.claims import CLAIMS
 
 ID = "C17"
+CASE_TIMEOUT_S = 2400  # per-case alarm (seconds); a case that does not finish is reported as a violation
 LEVEL = "exploration"
 TECHNIQUE = CLAIMS[ID]["technique"]
 RULE = (
@@ -104,8 +105,12 @@ def eval_params(case):
         fail("config-fields", f"Config fields {fields} differ from the enumerated domain {sorted(dom)}")
     singles = [(f, v) for f in dom for v in dom[f]]
     combos = [[s] for s in singles] + [[a, b] for i, a in enumerate(singles) for b in singles[i + 1:] if a[0] != b[0]]
-    for combo in combos:
-        est = make(d)
+    bases = [None, {"common_subexpression_elimination": True, "innovation_filtering": None, "max_dt_sec": 0.25, "extra_validation": False,
+                    "python_modules": ("numpy", "math")}]
+    for combo, base_cfg in [(c_, b_) for c_ in combos for b_ in bases]:
+        if base_cfg is not None and len(combo) > 1 and combos.index(combo) % 3:
+            continue  # second base configuration (a None-valued field, non-default values): all singles, every third pair
+        est = make(d, base_cfg)
         before = dict(est.get_params())
         cfg0 = est.config
         try:
@@ -120,7 +125,8 @@ def eval_params(case):
         for f in fields:
             want = dict(combo).get(f, getattr(cfg0, f))
             if getattr(after["config"], f) != want:
-                fail("config-field", f"after set_params({combo}) config.{f} = {getattr(after['config'], f)!r}, expected {want!r}")
+                fail("config-field", f"after set_params({combo}) on a config {'with innovation_filtering=None' if base_cfg else '(default-like)'} "
+                     f"config.{f} = {getattr(after['config'], f)!r}, expected {want!r}")
         d2 = same_params({k: v for k, v in before.items() if k != "config"}, {k: v for k, v in after.items() if k != "config"}, "")
         if d2:
             fail("set_params-touches-other-params", f"set_params({combo}) changed {d2}")
